@@ -115,8 +115,15 @@ def gen_hierarchy(rng, depth):
                     body.append("super().__init__()")
             elif k > 0:
                 style = rng.choice(["super()", f"super({cname}, self)"])
+                if k >= 2 and kind == "super" and rng.random() < 0.3:
+                    # documented non-immediate super: continue after the parent, whose __init__ is not run at all
+                    style = f"super({names[k - 1]}, self)"
+                    sp["forwards"].append(("super-after", names[k - 1], hard))
+                    sp["kind"] = "super-skip"
+                    pending -= {p["name"] for p in specs[names[k - 1]]["own"]}
+                else:
+                    sp["forwards"].append(("super", hard))
                 body.append(f"{style}.__init__({hs}**kwargs)")
-                sp["forwards"].append(("super", hard))
         elif kind == "func":
             f = new_func(f"{k}f")
             hard = {}
@@ -225,6 +232,9 @@ def gen_hierarchy(rng, depth):
         specs["Left"] = dict(name="Left", module=0, parents=[root], own=[dict(name="lfa", ann="int", default="1", required=False)] if left_has_init else [], kind="super" if left_has_init else "noinit", has_init=left_has_init, has_kwargs=left_has_init, forwards=[("super", {})] if left_has_init else [], hard={})
         specs["Right"] = dict(name="Right", module=0, parents=[root], own=rp, kind="super", has_init=True, has_kwargs=True, forwards=[("super", hard)], hard=hard)
         specs["Diamond"] = dict(name="Diamond", module=0, parents=["Left", "Right"], own=[dict(name="dia", ann="int", default="0", required=False)], kind="super", has_init=True, has_kwargs=True, forwards=[("super", {})], hard={})
+        # a second class over Left alone: what Left's super() reaches differs between the two (the root vs Right, then the root)
+        text += "class Solo(Left):\n    def __init__(self, solo: int = 0, **kwargs):\n        self.solo = solo\n        super().__init__(**kwargs)\n"
+        specs["Solo"] = dict(name="Solo", module=0, parents=["Left"], own=[dict(name="solo", ann="int", default="0", required=False)], kind="super", has_init=True, has_kwargs=True, forwards=[("super", {})], hard={})
         if specs[root]["module"] == 1:
             src[0] += "from MOD1 import *\n"
         src[0] += text
@@ -248,6 +258,9 @@ def expected_params(cls, specs, funcs):
                 if fw[0] == "super":
                     r = from_idx(i + 1)
                     r = {k: v for k, v in r.items() if k not in fw[1]}
+                elif fw[0] == "super-after":
+                    r = from_idx([c.__name__ for c in mro].index(fw[1]) + 1)
+                    r = {k: v for k, v in r.items() if k not in fw[2]}
                 elif fw[0] == "func":
                     r = {p["name"]: (p["ann"], p["default"]) for p in funcs[fw[1]] if p["name"] not in fw[2]}
                 else:
@@ -284,13 +297,16 @@ def branch_needs(cls, specs, funcs):
                         seen |= {p_["name"] for p_ in funcs[fw[1]]}
                     elif fw[0] == "pop":
                         seen.add(fw[1])
-                if not any(fw[0] == "super" for fw in spj["forwards"]):
+                after = [fw[1] for fw in spj["forwards"] if fw[0] == "super-after"]
+                if after:
+                    j = [c_.__name__ for c_ in mro].index(after[0])
+                elif not any(fw[0] == "super" for fw in spj["forwards"]):
                     break
             j += 1
         hard = set()
         for c2 in mro:
             for fw in specs.get(c2.__name__, {}).get("forwards", []):
-                if fw[0] in ("super", "func") and isinstance(fw[-1], dict):
+                if fw[0] in ("super", "super-after", "func") and isinstance(fw[-1], dict):
                     hard |= set(fw[-1])
         for n in seen - hard:
             needs.setdefault(n, {})[sw] = False
@@ -303,7 +319,7 @@ def hard_coded(cls, specs):
         sp = specs.get(c.__name__)
         if sp:
             for fw in sp["forwards"]:
-                if fw[0] in ("super", "func") and isinstance(fw[-1], dict):
+                if fw[0] in ("super", "super-after", "func") and isinstance(fw[-1], dict):
                     out |= set(fw[-1])
     return out
 
@@ -335,113 +351,129 @@ def case(ctx, i, rng):
             return
         mod, p0 = o0.value
         mods.append((mod, p0))
-        cls = getattr(mod, leaf)
-        exp = expected_params(cls, specs, funcs)
-        hard = hard_coded(cls, specs) - set(exp)
-        w = dict(source=(src[1] + ftext[1] + "\n# ---- second file ----\n" if two_files else "") + text0[len(HEADER):], leaf=leaf, depth=depth, two_files=two_files)
-        kinds = sorted({specs[c.__name__]["kind"] for c in cls.__mro__ if c.__name__ in specs})
-        ctx.evaluation(("c13", depth, two_files, leaf, tuple(specs[c.__name__]["kind"] for c in cls.__mro__ if c.__name__ in specs)))
-        ctx.count("mon.programs")
-        ctx.count(f"st.depth.{depth}")
-        for kd in kinds:
-            ctx.count(f"st.pattern.{kd}")
-        if two_files:
-            ctx.count("st.two_source_files")
-        if leaf == "Diamond":
-            ctx.count("st.multiple_inheritance")
-        if hard:
-            ctx.count("st.hard_coded_argument")
-        # sanity of the generated program + model: the interpreter accepts all expected parameters together
-        needs = branch_needs(cls, specs, funcs)
-        allv = {n: val_for(a) for n, (a, d) in exp.items()}
-        for sw_ in {sw_ for nd in needs.values() for sw_ in nd}:
-            allv[sw_] = False
-        together = {n: v for n, v in allv.items() if not any(val for val in needs.get(n, {}).values())}
-        if needs:
-            ctx.count("st.condition_on_a_parameter")
-        oc = call(cls, **together)
-        if not oc.accepted:
-            ctx.observe("generated-program-or-model-inconsistent (case skipped)", dict(error=oc.brief(), source=w["source"][-500:]))
-            ctx.count("cases_skipped_model_disagrees_with_interpreter")
-            return
-        o = call(get_signature_parameters, cls)
-        if not o.accepted:
-            ctx.violation("resolver", f"get_signature_parameters-raised/{o.exc_type}", dict(w, outcome=o.brief(), tb=o.tb))
-            return
-        params = {p.name: p for p in o.value}
-        cond = {n for n, p in params.items() if "Conditional" in repr(p.default) or "Conditional" in type(p.default).__name__}
-        offered = set(params) - cond
-        ctx.count("mon.parameter_sets_compared")
-        missing = set(exp) - set(params)
-        extra = offered - set(exp)
-        pat = "+".join(kinds)
-        for n in sorted(missing):
-            # interpreter confirms: a call with it succeeds
-            base = {m: val_for(a) for m, (a, d) in exp.items() if d == "<required>"}
-            oc = call(cls, **{**base, **needs.get(n, {}), n: allv[n]})
-            if oc.accepted:
-                ctx.violation("resolver", f"reachable-parameter-not-offered/{_where(n)}/{'two-files' if two_files else 'one-file'}/{'diamond' if leaf == 'Diamond' else 'chain'}", dict(w, parameter=n, offered=sorted(params), expected=sorted(exp), patterns=pat))
+        def check_one(leaf, first):
+            cls = getattr(mod, leaf)
+            exp = expected_params(cls, specs, funcs)
+            hard = hard_coded(cls, specs) - set(exp)
+            w = dict(source=(src[1] + ftext[1] + "\n# ---- second file ----\n" if two_files else "") + text0[len(HEADER):], leaf=leaf, depth=depth, two_files=two_files)
+            kinds = sorted({specs[c.__name__]["kind"] for c in cls.__mro__ if c.__name__ in specs})
+            ctx.evaluation(("c13", depth, two_files, leaf, tuple(specs[c.__name__]["kind"] for c in cls.__mro__ if c.__name__ in specs)))
+            ctx.count("mon.programs")
+            ctx.count(f"st.depth.{depth}")
+            for kd in kinds:
+                ctx.count(f"st.pattern.{kd}")
+            if two_files:
+                ctx.count("st.two_source_files")
+            if leaf == "Diamond":
+                ctx.count("st.multiple_inheritance")
+            if hard:
+                ctx.count("st.hard_coded_argument")
+            # sanity of the generated program + model: the interpreter accepts all expected parameters together
+            needs = branch_needs(cls, specs, funcs)
+            allv = {n: val_for(a) for n, (a, d) in exp.items()}
+            for sw_ in {sw_ for nd in needs.values() for sw_ in nd}:
+                allv[sw_] = False
+            together = {n: v for n, v in allv.items() if not any(val for val in needs.get(n, {}).values())}
+            if needs:
+                ctx.count("st.condition_on_a_parameter")
+            oc = call(cls, **together)
+            if not oc.accepted:
+                ctx.observe("generated-program-or-model-inconsistent (case skipped)", dict(error=oc.brief(), source=w["source"][-500:]))
+                ctx.count("cases_skipped_model_disagrees_with_interpreter")
                 return
-        for n in sorted(extra):
-            base = {m: val_for(a) for m, (a, d) in exp.items() if d == "<required>"}
-            oc = call(cls, **{**base, n: 9})
-            if oc.accepted and callable(getattr(oc.value, "run", None)):
-                # **kwargs kept in an attribute: the call that receives them happens when the object is used
-                oc = call(oc.value.run)
-                ctx.count("mon.extra_parameter_confirmed_by_using_the_object")
-            if not oc.accepted and oc.exc_type == "TypeError":
-                what = "hard-coded-parameter-offered" if n in hard or "multiple values" in (oc.exc_text or "") else "offered-parameter-not-accepted-by-the-code"
-                ctx.violation("resolver", f"{what}/{_where(n)}/{'diamond' if leaf == 'Diamond' else 'chain'}", dict(w, parameter=n, error=oc.exc_text, offered=sorted(params), expected=sorted(exp), patterns=pat))
+            o = call(get_signature_parameters, cls)
+            if not o.accepted:
+                ctx.violation("resolver", f"get_signature_parameters-raised/{o.exc_type}", dict(w, outcome=o.brief(), tb=o.tb))
                 return
-        # type and default of each offered parameter = those of the signature it comes from
-        for n in sorted(set(exp) & set(params)):
-            a, d = exp[n]
-            p = params[n]
-            if n in cond and d != "<required>":
-                continue
-            if a is not None:
-                ea = eval(a, vars(mod))
-                if p.annotation != ea:
-                    ctx.violation("resolver", f"annotation-differs/{_where(n)}", dict(w, parameter=n, expected=a, got=repr(p.annotation)))
+            params = {p.name: p for p in o.value}
+            cond = {n for n, p in params.items() if "Conditional" in repr(p.default) or "Conditional" in type(p.default).__name__}
+            offered = set(params) - cond
+            ctx.count("mon.parameter_sets_compared")
+            missing = set(exp) - set(params)
+            extra = offered - set(exp)
+            pat = "+".join(kinds)
+            for n in sorted(missing):
+                # interpreter confirms: a call with it succeeds
+                base = {m: val_for(a) for m, (a, d) in exp.items() if d == "<required>"}
+                oc = call(cls, **{**base, **needs.get(n, {}), n: allv[n]})
+                if oc.accepted:
+                    ctx.violation("resolver", f"reachable-parameter-not-offered/{_where(n)}/{'two-files' if two_files else 'one-file'}/{'diamond' if leaf == 'Diamond' else 'chain'}", dict(w, parameter=n, offered=sorted(params), expected=sorted(exp), patterns=pat))
                     return
-            if d == "<required>":
-                if p.default is not inspect._empty:
-                    ctx.violation("resolver", f"required-parameter-got-default/{_where(n)}", dict(w, parameter=n, got=repr(p.default)))
+            for n in sorted(extra):
+                base = {m: val_for(a) for m, (a, d) in exp.items() if d == "<required>"}
+                oc = call(cls, **{**base, n: 9})
+                if oc.accepted and callable(getattr(oc.value, "run", None)):
+                    # **kwargs kept in an attribute: the call that receives them happens when the object is used
+                    oc = call(oc.value.run)
+                    ctx.count("mon.extra_parameter_confirmed_by_using_the_object")
+                if not oc.accepted and oc.exc_type == "TypeError":
+                    what = "hard-coded-parameter-offered" if n in hard or "multiple values" in (oc.exc_text or "") else "offered-parameter-not-accepted-by-the-code"
+                    ctx.violation("resolver", f"{what}/{_where(n)}/{'diamond' if leaf == 'Diamond' else 'chain'}", dict(w, parameter=n, error=oc.exc_text, offered=sorted(params), expected=sorted(exp), patterns=pat))
                     return
-            else:
-                ed = eval(d, vars(mod))
-                if p.default is inspect._empty or same(ed, p.default):
-                    ctx.violation("resolver", f"default-differs/{_where(n)}", dict(w, parameter=n, expected=d, got=repr(p.default)))
-                    return
-        # through the parser: everything offered can be given, and instantiation works
-        pr = ArgumentParser(exit_on_error=False)
-        oa = call(pr.add_class_arguments, cls, "x")
-        if not oa.accepted:
-            ctx.violation("resolver", f"add_class_arguments-raised/{oa.exc_type}", dict(w, outcome=oa.brief()))
-            return
-        typed = {n: v for n, v in allv.items() if n in offered and n in exp and exp[n][0] is not None and not any(needs.get(n, {}).values())}
-        op = call(pr.parse_object, {"x": dict(typed)})
-        ctx.count("mon.parser_instantiations")
-        if not op.accepted:
-            ctx.violation("resolver", f"offered-parameters-rejected-by-parser/{op.exc_type}", dict(w, given=typed, outcome=op.brief()))
-            return
-        oi = call(pr.instantiate_classes, op.value)
-        if not oi.accepted:
-            mech = ""
-            if needs and not any(val is False for nd in needs.values() for val in nd.values()):
-                mech = "/condition-on-parameter-with-one-branch-without-parameters"
-            ctx.violation("resolver", f"instantiation-with-offered-parameters-failed/{oi.exc_type}{mech}", dict(w, given=typed, outcome=oi.brief()))
-            return
-        # a required parameter must be required by the parser too
-        reqs = [n for n, (a, d) in exp.items() if d == "<required>"]
-        if reqs:
-            rq = rng.choice(sorted(reqs))
-            on = call(pr.parse_object, {"x": {k: v for k, v in typed.items() if k != rq}})
-            ctx.count("mon.required_enforced")
-            if on.accepted:
-                ctx.violation("resolver", "required-parameter-not-enforced", dict(w, parameter=rq, result=short(on.value)))
-        if i < 2:
-            ctx.sample(dict(source=w["source"][:700], offered=sorted(params)))
+            # type and default of each offered parameter = those of the signature it comes from
+            for n in sorted(set(exp) & set(params)):
+                a, d = exp[n]
+                p = params[n]
+                if n in cond and d != "<required>":
+                    continue
+                if a is not None:
+                    ea = eval(a, vars(mod))
+                    if p.annotation != ea:
+                        ctx.violation("resolver", f"annotation-differs/{_where(n)}", dict(w, parameter=n, expected=a, got=repr(p.annotation)))
+                        return
+                if d == "<required>":
+                    if p.default is not inspect._empty:
+                        ctx.violation("resolver", f"required-parameter-got-default/{_where(n)}", dict(w, parameter=n, got=repr(p.default)))
+                        return
+                else:
+                    ed = eval(d, vars(mod))
+                    if p.default is inspect._empty or same(ed, p.default):
+                        ctx.violation("resolver", f"default-differs/{_where(n)}", dict(w, parameter=n, expected=d, got=repr(p.default)))
+                        return
+            # through the parser: everything offered can be given, and instantiation works
+            pr = ArgumentParser(exit_on_error=False)
+            oa = call(pr.add_class_arguments, cls, "x")
+            if not oa.accepted:
+                ctx.violation("resolver", f"add_class_arguments-raised/{oa.exc_type}", dict(w, outcome=oa.brief()))
+                return
+            typed = {n: v for n, v in allv.items() if n in offered and n in exp and exp[n][0] is not None and not any(needs.get(n, {}).values())}
+            op = call(pr.parse_object, {"x": dict(typed)})
+            ctx.count("mon.parser_instantiations")
+            if not op.accepted:
+                ctx.violation("resolver", f"offered-parameters-rejected-by-parser/{op.exc_type}", dict(w, given=typed, outcome=op.brief()))
+                return
+            oi = call(pr.instantiate_classes, op.value)
+            if not oi.accepted:
+                mech = ""
+                if needs and not any(val is False for nd in needs.values() for val in nd.values()):
+                    mech = "/condition-on-parameter-with-one-branch-without-parameters"
+                ctx.violation("resolver", f"instantiation-with-offered-parameters-failed/{oi.exc_type}{mech}", dict(w, given=typed, outcome=oi.brief()))
+                return
+            # a required parameter must be required by the parser too
+            reqs = [n for n, (a, d) in exp.items() if d == "<required>"]
+            if reqs:
+                rq = rng.choice(sorted(reqs))
+                on = call(pr.parse_object, {"x": {k: v for k, v in typed.items() if k != rq}})
+                ctx.count("mon.required_enforced")
+                if on.accepted:
+                    ctx.violation("resolver", "required-parameter-not-enforced", dict(w, parameter=rq, result=short(on.value)))
+            if i < 2 and first:
+                ctx.sample(dict(source=w["source"][:700], offered=sorted(params)))
+
+        # the leaf and, in random order around it, other classes of the same hierarchy: their MROs share classes but continue
+        # differently after them (Left alone vs Left inside Diamond; a chain class alone vs below its subclasses)
+        others = [n for n in specs if n != leaf and specs[n]["has_init"]]
+        rng.shuffle(others)
+        targets = [leaf] + others[: rng.choice([0, 1, 2, 2])]
+        if leaf == "Diamond" and "Solo" not in targets and rng.random() < 0.7:
+            targets.append("Solo")
+        if "Solo" in targets:
+            ctx.count("st.two_classes_sharing_a_base_with_different_mro_continuations")
+        rng.shuffle(targets)
+        for n_, t in enumerate(targets):
+            if t != leaf:
+                ctx.count("st.non_leaf_class_of_the_same_hierarchy" + (".before_the_leaf" if targets.index(leaf) > n_ else ".after_the_leaf"))
+            check_one(t, n_ == 0)
     finally:
         for m, pth in mods:
             programs.forget(m, pth)
